@@ -24,10 +24,12 @@ def _st_stmt():
 
 
 def run(ctx):
-    st_nodeacct.run_stage(ctx, PREFIXES)
     stmt = _st_stmt()
+    stages = [lambda: st_nodeacct.run_stage(ctx, PREFIXES)]
     if stmt is not None:
-        stmt.run_stage(ctx, PREFIXES)
+        stages.append(lambda: stmt.run_stage(ctx, PREFIXES))
+    import vlib
+    vlib.run_parallel(stages)      # independent stages (node level, statement level)
     # snapshot construction: the freshly opened session of every real cycle (real SchedulerCache snapshot of the
     # API objects) against the truth recomputed by Cluster.tla from those objects (C14_Snapshot*)
     n = 600 if ctx.quick else 8000
